@@ -987,14 +987,16 @@ func skAddRunStride(s int, v float64, n, stride int) skOp {
 		real: func(w *SketchWorld, st []*SkSlot, _ bool) {
 			m := st[s].Mapping()
 			i0 := m.Index(v)
-			for j := 0; j < n; j++ {
+			top := m.Index(m.MaxIndexableValue()) - 2
+			for j := 0; j < n && i0+j*stride < top; j++ {
 				must(st[s].Q().Add(m.Value(i0+j*stride)), "AddRun")
 			}
 		},
 		mod: func(w *SketchWorld) {
 			m := w.M[s].Map
 			i0 := m.Index(v)
-			for j := 0; j < n; j++ {
+			top := m.Index(m.MaxIndexableValue()) - 2
+			for j := 0; j < n && i0+j*stride < top; j++ {
 				w.M[s].Add(m.Value(i0+j*stride), 1)
 			}
 		}}
